@@ -2,7 +2,8 @@ import GuppyVerif.Model.Gate
 import GuppyVerif.Model.Angle
 /-! # Specification for C20, hand-written from the docstrings of `std/quantum` and `std/qsystem`
 
-Fixed table: library function → the HUGR op its name/docstring documents, its number of qubits (in
+Fixed tables: library function (every top-level function of every module under `std/quantum/` and
+`std/qsystem/`, and the methods of `qubit`) → the HUGR op its name/docstring documents, its number of qubits (in
 declaration order, `Qubit ordering: [control, target]` etc.) and how its angle arguments must reach
 the op.  Independent of the regenerated table `Gen/C20GateTable.lean`. -/
 namespace GuppyVerif.Gate.Spec
@@ -105,9 +106,71 @@ def decompositions : List (String × String) := [("quantum", "ch"), ("qsystem", 
 def unmodelled : List (String × String) :=
   [("quantum", "measure_array"), ("quantum", "discard_array"), ("qsystem", "measure_leaked")]
 
+/-- **functional wrappers** (`std/quantum/functional.py`, `std/qsystem/functional.py`: "these gates are the
+    same as those in std.quantum / std.qsystem but use functional syntax"): the function of the same
+    name in `baseModl`, applied to the arguments in order; qubits are taken `@owned` and returned in
+    declaration order, followed by the measured bit where there is one. -/
+structure FuncSpec where
+  modl : String
+  name : String
+  baseModl : String
+  nq : Nat
+  nangles : Nat := 0
+  returnsQubits : Bool := true
+  bit : Bool := false
+  deriving DecidableEq, Repr
+
+def FuncSpec.arity (f : FuncSpec) : Nat := f.nq + f.nangles
+
+def FuncSpec.paramKinds (f : FuncSpec) : List PTy :=
+  List.replicate f.nq .qubitOwned ++ List.replicate f.nangles .angle
+
+/-- returned values of `f(σ 0, …)`: the qubits in declaration order, then the bit of the wrapped call -/
+def FuncSpec.expectedReturns (f : FuncSpec) (σ : Nat → Exp) : List Exp :=
+  (if f.returnsQubits then (List.range f.nq).map σ else []) ++ (if f.bit then [.res 0] else [])
+
+def functional : List FuncSpec := [
+  ⟨"quantum.functional", "h", "quantum", 1, 0, true, false⟩,
+  ⟨"quantum.functional", "x", "quantum", 1, 0, true, false⟩,
+  ⟨"quantum.functional", "y", "quantum", 1, 0, true, false⟩,
+  ⟨"quantum.functional", "z", "quantum", 1, 0, true, false⟩,
+  ⟨"quantum.functional", "s", "quantum", 1, 0, true, false⟩,
+  ⟨"quantum.functional", "sdg", "quantum", 1, 0, true, false⟩,
+  ⟨"quantum.functional", "t", "quantum", 1, 0, true, false⟩,
+  ⟨"quantum.functional", "tdg", "quantum", 1, 0, true, false⟩,
+  ⟨"quantum.functional", "v", "quantum", 1, 0, true, false⟩,
+  ⟨"quantum.functional", "vdg", "quantum", 1, 0, true, false⟩,
+  ⟨"quantum.functional", "cx", "quantum", 2, 0, true, false⟩,
+  ⟨"quantum.functional", "cy", "quantum", 2, 0, true, false⟩,
+  ⟨"quantum.functional", "cz", "quantum", 2, 0, true, false⟩,
+  ⟨"quantum.functional", "ch", "quantum", 2, 0, true, false⟩,
+  ⟨"quantum.functional", "toffoli", "quantum", 3, 0, true, false⟩,
+  ⟨"quantum.functional", "rx", "quantum", 1, 1, true, false⟩,
+  ⟨"quantum.functional", "ry", "quantum", 1, 1, true, false⟩,
+  ⟨"quantum.functional", "rz", "quantum", 1, 1, true, false⟩,
+  ⟨"quantum.functional", "crz", "quantum", 2, 1, true, false⟩,
+  ⟨"quantum.functional", "reset", "quantum", 1, 0, true, false⟩,
+  ⟨"quantum.functional", "project_z", "quantum", 1, 0, true, true⟩,
+  ⟨"qsystem.functional", "phased_x", "qsystem", 1, 2, true, false⟩,
+  ⟨"qsystem.functional", "zz_phase", "qsystem", 2, 1, true, false⟩,
+  ⟨"qsystem.functional", "zz_max", "qsystem", 2, 0, true, false⟩,
+  ⟨"qsystem.functional", "rz", "qsystem", 1, 1, true, false⟩,
+  ⟨"qsystem.functional", "reset", "qsystem", 1, 0, true, false⟩,
+  ⟨"qsystem.functional", "measure_and_reset", "qsystem", 1, 0, true, true⟩,
+  ⟨"qsystem.functional", "measure", "qsystem", 1, 0, false, true⟩,
+  ⟨"qsystem.functional", "qfree", "qsystem", 1, 0, false, false⟩
+]
+
+/-- non-quantum utilities living in the same packages (random numbers, shot number, wasm contexts):
+    enumerated so that additions are noticed, not modelled -/
+def utilities : List (String × String) :=
+  [("qsystem.random", "_new_rng_context"), ("qsystem.random", "make_discrete_distribution"),
+   ("qsystem.utils", "get_current_shot"), ("qsystem.wasm", "spawn_wasm_contexts")]
+
 /-- every function the specification knows about -/
 def allNames : List (String × String) :=
-  gates.map (fun s => (s.modl, s.name)) ++ decompositions ++ unmodelled
+  gates.map (fun s => (s.modl, s.name)) ++ decompositions ++ unmodelled ++
+    functional.map (fun f => (f.modl, f.name)) ++ utilities
 
 end GuppyVerif.Gate.Spec
 
